@@ -212,7 +212,8 @@ from pyvc.contract import rk_list  # noqa
 
 def define_sequence_build_folds(src):
     prelude.declare_fun('dyn_item', [t.VAL, t.INT], t.VAL)
-    prelude.define('qbitem', """(define-fun qbitem ((v Val) (i Int)) Val (ite ((_ is VNone) v) VNone (dyn_item v i)))""", deps=['dyn_item'])
+    # element i of the supplied sequence; None when no value is supplied and None for members beyond the end of a short sequence
+    prelude.define('qbitem', """(define-fun qbitem ((v Val) (i Int)) Val (ite ((_ is VNone) v) VNone (ite (< i (dyn_len v)) (dyn_item v i) VNone)))""", deps=['dyn_item', 'dyn_len'])
     prelude.define('qbstep', """(define-fun qbstep ((m Int) (s BS) (e Val) (base Int) (c Int)) BS
   (ite (not (bs_ok s)) s
   (let ((H1 (ite (truthy (sc_name m)) (store (bs_H s) c (store (select (bs_H s) c) (sval (sc_name m)) e)) (bs_H s)))
@@ -265,7 +266,7 @@ def _seq_build_inv(L):
     v = pre['obj'].t
     F = qbfold(L.entry, sl, L.k, v, base)
     o = L.obj('stream')
-    hints = [_qbunfold(L.entry, sl, L.k, v, base)] if L.k.op != 'int' else []
+    hints = [prelude.definition_instance('qbfold', [sl, L.k, _qb0(L.entry), v, base, _addr(L.entry, 'context')])] if L.k.op != 'int' else []
     out = [('state-after-k-members-is-the-specification-fold', t.and_(bs('bs_ok', F), t.eq(o.buf, bs('bs_buf', F)), t.eq(o.len, bs('bs_len', F)), t.eq(o.pos, bs('bs_pos', F)),
                                                                     t.eq(L.st.ghost['H'], bs('bs_H', F)), t.eq(L.st.ghost['D'], bs('bs_D', F))), None, hints),
            ('scope-keeps-its-identity', t.eq(_addr(L.st, 'context'), _addr(L.entry, 'context')))]
@@ -274,7 +275,9 @@ def _seq_build_inv(L):
     except Exception:
         it = None
     if hasattr(it, 'idx'):
-        out.append(('the-iterator-over-the-supplied-values-stands-at-element-k', t.eq(it.idx, L.k)))
+        n_it = getattr(it.it, 'n', None)
+        out.append(('the-iterator-over-the-supplied-values-stands-at-element-k-or-is-exhausted',
+                    t.eq(it.idx, L.k) if n_it is None else t.and_(t.ge(n_it, t.ZERO), t.eq(it.idx, t.ite(t.le(L.k, n_it), L.k, n_it)))))
     rl = L.obj('retlist')
     if rl.items is None:
         j = t.var('qbj!', t.INT)
@@ -324,11 +327,19 @@ def _seq_build_ok(pre, post):
     return out
 
 
+def _seq_build_bad(pre, post):
+    """a value list shorter than the member list is completed with None (what parse returns when a member ended it early is such a
+    list: C02), so running out of supplied values is never an error of its own"""
+    code = post.eng.src.exc_code
+    return [('running-out-of-supplied-values-is-not-an-error-the-remaining-members-are-built-from-None',
+             t.ne(post.exc.cls, I(code['StopIteration'])), ('C02', 'C03'))]
+
+
 def register_sequence_build(src):
     define_sequence_build_folds(src)
     fcontract('Sequence', '_build', [
         Case('ok', 'return', lambda pre: t.TRUE, ensures=_seq_build_ok, rkind=rk_list, modifies=['stream']),
-        Case('fails', 'raise', lambda pre: t.TRUE, modifies=['stream']),
+        Case('fails', 'raise', lambda pre: t.TRUE, ensures=_seq_build_bad, modifies=['stream']),
     ], loops={'for (i, sc) in enumerate(self.subcons)': LoopSpec(_seq_build_inv, tags=T + ('C01',))}, tags=T + ('C01',), sequential_build=False)
 
 
